@@ -261,6 +261,13 @@ def run(tier, seed):
     behs = uniq
     if not behs:
         raise MachineryError("no behaviours emitted by TLC")
+    if thorough and len(behs) > 60000:          # the depth-6 tree has ~10^5..10^6 behaviours: a seeded sample of it is replayed
+        tree, rest = behs[:ntree], behs[ntree:]
+        rnd.shuffle(tree)
+        tree = tree[:max(0, 60000 - len(rest))]
+        ev.cov["thorough_tree_behaviours_sampled"] = [len(tree), ntree]
+        behs = tree + rest
+        ntree = len(tree)
 
     # 3. replay + record ------------------------------------------------------------------------------
     # (quantum in seconds, start offset, loop clock resolution, how early "within clock resolution" is)
@@ -323,7 +330,7 @@ def run(tier, seed):
     for lo in range(0, len(traces), CH):
         with open(tf, "w") as f:
             json.dump(traces[lo:lo + CH], f)
-        r = run_tlc(os.path.join(d, "TimerTrace.tla"), cfg, workers=1, extra_env={"TRACE_FILE": tf}, timeout=3000)
+        r = run_tlc(os.path.join(d, "TimerTrace.tla"), cfg, workers=1, extra_env={"TRACE_FILE": tf}, timeout=3000, java_opts=["-Xss256m"])
         ev.add_tlc(f"TimerTrace.tla (logs {lo + 1}..{min(lo + CH, len(traces))})", r, "one state per recorded log; monitor folded over every event")
         verdicts.update({v["tid"]: v for v in r.prints if isinstance(v, dict) and "tid" in v})
     if len(verdicts) != len(traces):
